@@ -259,7 +259,33 @@ impl Sink {
         self.raw(&o.ops_text.clone(), &o.obs_text.clone());
         self.seq_text.push_str(&line.text());
         self.seq_text.push('\n');
-        let fails = monitors::check_outcome(&o, self.ovh, self.vsz);
+        let mut fails = monitors::check_outcome(&o, self.ovh, self.vsz);
+        // C14: an operation on one cache leaves every other live cache exactly as it was
+        let touched = match &line.op {
+            Op::New { c, .. } | Op::Drop { c } | Op::On { c, .. } => vec![*c],
+            Op::Clone { c, d, .. } => vec![*c, *d],
+        };
+        for i in 0..w.caches.len() {
+            if touched.contains(&i) {
+                continue;
+            }
+            if let (Some(cache), Some(old)) = (w.caches[i].as_ref(), w.snaps.get(i).and_then(|x| x.as_ref())) {
+                let now = exec::observe(cache, old.full);
+                if now != *old {
+                    fails.push(monitors::Fail { prop: "C14", msg: format!("`{}` changed cache {} which it does not operate on", line.text(), i) });
+                }
+            }
+        }
+        if let Op::Clone { c, .. } = &line.op {
+            // the source must be untouched by clone (also C19)
+            if let (Some(cache), Some(old)) = (w.caches.get(*c).and_then(|x| x.as_ref()), o.pre.as_ref()) {
+                let now = exec::observe(cache, old.full);
+                if now != *old {
+                    fails.push(monitors::Fail { prop: "C14", msg: "clone() altered its source".to_owned() });
+                    fails.push(monitors::Fail { prop: "C19", msg: "clone() altered its source".to_owned() });
+                }
+            }
+        }
         for f in fails {
             self.failures += 1;
             writeln!(self.mon, "FAIL {} line={} seq={} start={} :: {}", f.prop, self.line_no - 1, self.seq_no,
